@@ -72,6 +72,37 @@ def replay(pid, hname, params, values, opts=None):
     return out
 
 
+def replay_fresh(pid, hname, params, values, opts=None):
+    """the same replay in a fresh interpreter: class-level state the library keeps (and the symbolic runs of this process may have left
+    symbolic objects in) cannot leak into it. The in-memory canary mutant, if any, is applied there as well."""
+    import subprocess
+    o = {k: v for k, v in (opts or {}).items() if isinstance(v, (int, float, str, bool, type(None)))}
+    req = json.dumps(dict(pid=pid, harness=hname, params=params, values=values, opts=o))
+    try:
+        p = subprocess.run([sys.executable, '-m', 'symx.runner'], input=req, capture_output=True, text=True, timeout=600,
+                           env=dict(os.environ, PYTHONDONTWRITEBYTECODE='1'), cwd=VERIF)
+        for line in reversed(p.stdout.splitlines()):
+            if line.startswith('{"failed"'):
+                return json.loads(line)
+        return dict(failed=[], error='fresh replay produced no result: %s' % (p.stderr[-300:],), invalid=True)
+    except Exception as e:  # noqa
+        return dict(failed=[], error='fresh replay failed: %s' % e, invalid=True)
+
+
+def _replay_main():
+    req = json.loads(sys.stdin.read())
+    undo = None
+    if req['opts'].get('canary'):
+        undo = prop_module(req['pid']).apply_canary(req['opts']['canary'])
+    try:
+        out = replay(req['pid'], req['harness'], req['params'], req['values'], req['opts'])
+    finally:
+        if undo is not None:
+            undo()
+    out.pop('trace', None)
+    print(json.dumps(dict(failed=out['failed'], error=out['error'], invalid=out['invalid']), default=str))
+
+
 # --------------------------------------------------------------------------------------
 # one job = one harness instance, all paths
 
@@ -110,6 +141,7 @@ def run_job(job):
             R['inconclusive'].append(dict(label=label, why='replay budget exhausted (%s)' % kind))
             return False
         R['replays'] += 1
+        model0 = dict(model)
         rp = replay(pid, hname, params, model, opts)
         # inputs that the counterexample leaves free get generic values; try a few different ones
         for salt in range(1, 1 + int(opts.get('replay_retries', 4))):
@@ -123,6 +155,13 @@ def run_job(job):
                 break
             model = dict(__salt__=salt)
             rp = replay(pid, hname, params, model, opts)
+        if not rp['failed'] and rp['error'] and kind != 'exception':
+            # the in-process replay broke down instead of comparing (state left behind by the symbolic runs?): once more in a fresh interpreter
+            for m in (model0, dict(__salt__=0)):
+                rp2 = replay_fresh(pid, hname, params, m, opts)
+                if rp2['failed']:
+                    rp, model = rp2, m
+                    break
         if kind == 'exception' and rp['error'] and not rp['failed'] and rp['error'].split(':')[0] != detail.split(':')[0]:
             R['inconclusive'].append(dict(label=label, why='symbolic path raised %s but the concrete replay raised %s' % (detail[:200], rp['error'][:200])))
             return False
@@ -297,3 +336,7 @@ def match_known(pid, v, known):
         if ok:
             return k
     return None
+
+
+if __name__ == '__main__':
+    _replay_main()
